@@ -7,6 +7,7 @@ from fractions import Fraction
 from core.exact import Ex, rs
 from core.rng import ScriptExhausted, SemanticRandom, installed, patched
 from core.runner import Prop
+from . import netgen
 
 SHAPES = {
     "2-clique": (2, [(0, 1)]),
@@ -192,6 +193,15 @@ def snapshot(G):
     return sorted([min(a, b), max(a, b), G.edges[a, b].get(NN.TOPOLOGY), G.edges[a, b].get(NN.MOTIF_IDS)] for a, b in G.edges())
 
 
+def node_state(G):
+    """vertices in order with their attributes; sequence-valued attributes as (type name, list) so that arrays compare by value"""
+    out = []
+    for n, d in G.nodes(data=True):
+        out.append((n, sorted((str(k), (type(v).__name__, [int(x) for x in v]) if hasattr(v, "__iter__") and not isinstance(v, str) else v)
+                              for k, v in d.items())))
+    return out
+
+
 def build_network(case):
     import networkx as nx
     from gcmpy.network.network import Network
@@ -201,7 +211,7 @@ def build_network(case):
     order = {v: k for k, v in enumerate(case.get("node_order") or [])}
     for v, row in sorted(case["jd"], key=lambda t: order.get(t[0], t[0])):
         G.add_node(v)
-        G.nodes[v][NN.JOINT_DEGREE] = list(row) if case.get("jd_type") == "list" else tuple(row)
+        G.nodes[v][NN.JOINT_DEGREE] = netgen.annotation(row, case.get("jd_type"))
     for a, b, t, m in case["edges"]:
         G.add_edge(a, b)
         G.edges[a, b][NN.TOPOLOGY] = t
@@ -243,6 +253,8 @@ class MCMCProp(Prop):
         c["max_draws"] = 4000 if tier == "quick" else 20000
         if i % 5 == 1:
             c["jd_type"] = "list"          # annotations as lists (hand-built / loaded networks) instead of tuples
+        if i % 10 == 8:
+            c["jd_type"] = "numpy"         # ... or rows of an integer array
         if i % 2 == 1:
             c["node_order"] = [v for v, _ in c["jd"]]
             rng.shuffle(c["node_order"])   # a vertex's id is not its position in G.nodes()
@@ -278,7 +290,7 @@ class MCMCProp(Prop):
         from gcmpy.tools.joint_excess_joint_degree_matrices import JointExcessJointDegreeMatrices
         net = build_network(case)
         import copy
-        before = copy.deepcopy((list(net.G.nodes(data=True)), snapshot(net.G)))     # deep: list annotations may be changed in place
+        before = copy.deepcopy((node_state(net.G), snapshot(net.G)))     # deep: list annotations may be changed in place
         ejks = {nm: {tuple(k): Ex(v) for k, v in tab} for nm, tab in case["target"]}
         M = JointExcessJointDegreeMatrices({TN.EJKS: ejks, TN.EDGE_NAMES: list(case["names"])})
         params = {TN.NETWORK: net, TN.EJKS: M}
@@ -383,7 +395,7 @@ class MCMCProp(Prop):
         obs["calls"] = calls
         obs["rng_unexpected"] = sem.summary()["n_unexpected"]
         obs["final"] = final
-        obs["input_untouched"] = (list(net.G.nodes(data=True)), snapshot(net.G)) == before
+        obs["input_untouched"] = (node_state(net.G), snapshot(net.G)) == before
         return obs
 
     # ------------------------------------------------------------------ model
